@@ -77,6 +77,7 @@ static void sampled_cell_req(const c08::Cell& c, Rng& r) {
     if (c.order == 1 || c.order == 2) r.shuffle(stream);
     std::unique_ptr<SK> sk = c08::feed<ReqFam>(c, stream);
     VF_CHECK(sk->get_n() == c.n, kp + "n-not-true-n", ctx + " get_n=" + std::to_string(sk->get_n()));
+    { std::string why; const bool vok = c08::sorted_view_consistent(*sk, c.n, why); VF_CHECK(vok, kp + "sorted-view-not-sorted", ctx + " trial=" + std::to_string(trial) + " " + why); }
     uint64_t ok = 0, tot = 0, nok = 0, ntot = 0;
     for (size_t q : qs) {
       for (int incl = 0; incl < 2; ++incl) {
